@@ -341,6 +341,35 @@ def displace(segs, rng, n, maxdist=3, allow_first=True):
     return out
 
 
+def displace_across(segs, events, rng, n, maxdist=3):
+    """move n application-phase payload segments later by <= maxdist positions of their own direction, *past whatever the other direction sent in between*: a capture
+    point with one queue per direction (multi-queue NIC, bonded links, a tap merged from two fibres) shows a segment after the peer's reply that acknowledges it.  Only
+    bursts of the application phase take part (the handshake's order across directions is what lets any observer find the keys)."""
+    app = set(app_phase_bursts(events))
+    out = list(segs)
+    for _ in range(n):
+        cand = []
+        for i, s in enumerate(out):
+            if not s.payload or s.dup or s.burst not in app:
+                continue
+            own, j, last = 0, i, None
+            while j + 1 < len(out) and out[j + 1].burst in app and own < maxdist:
+                j += 1
+                if out[j].dir == s.dir:
+                    own += 1
+                else:
+                    last = j        # a position behind a segment of the other direction
+            if last is not None:
+                cand.append((i, last, j))
+        if not cand:
+            break
+        i, lo, hi = rng.choice(cand)
+        j = rng.randrange(lo, hi + 1)
+        x = out.pop(i)
+        out.insert(j, x)
+    return out
+
+
 def app_phase_bursts(events):
     """indices of the bursts that consist of application-phase records only (application data, TLS 1.3 tickets):
     their order relative to the other direction is not constrained by the handshake"""
@@ -403,6 +432,29 @@ def interleave_app(segs, events, rng):
         if o in nxt and s.flags & 0x10:
             s.ack = nxt[o]
     return out
+
+
+def add_tfo(segs, server=False):
+    """TCP Fast Open (RFC 7413): the client's first data segment travels on the SYN.  The SYN occupies one sequence number, so the segment's sequence-number
+    field is one below the number of its first payload octet; every other segment is unchanged.  server=True: if the SYN carried the client's whole first burst, the
+    server's first data segment travels on the SYN/ACK likewise.  -> (segs, applied)"""
+    out = list(segs)
+    done = False
+    for d, syn_flags in (("c", 0x02), ("s", 0x12)):
+        isyn = next((i for i, x in enumerate(out) if x.dir == d and x.flags & 0x12 == syn_flags and not x.payload), None)
+        idat = next((i for i, x in enumerate(out) if x.dir == d and x.payload and not x.dup), None)
+        if isyn is None or idat is None or idat < isyn or out[idat].seq != (out[isyn].seq + 1) & 0xFFFFFFFF or any(x.dup for x in out[:idat + 1]):
+            break
+        a, b = out[isyn], out[idat]
+        if d == "s":
+            nxt = next((x for x in out[idat + 1:] if x.dir == "c" and x.payload), None)
+            whole = not any(x.dir == "c" and x.payload and x.burst == 0 for x in out if not (x.flags & 0x02))
+            if not (server and done and whole):
+                break
+        out[isyn] = Seg(d, a.seq, a.ack, a.flags, b.payload, b.woff, b.burst)
+        del out[idat]
+        done = True
+    return out, done
 
 
 def add_repacketized(segs, rng, n=1):
